@@ -22,3 +22,4 @@ for d in sorted(glob.glob(os.path.join(HERE, "seeded", "*"))):
     v = [l for l in out.splitlines() if l.startswith("VIOLATION")]
     verdict = "MISSED" if not v else ("caught (no concrete input)" if all(l.endswith("no-failing-input-found") for l in v) else "caught with witness")
     print(f"{sid}: {verdict}", flush=True)
+subprocess.run("git -C %s checkout -- evidence" % HERE, shell=True)   # evidence of patched-tree runs is not kept
